@@ -8,6 +8,18 @@ from props import oracle
 
 PID = "C19"
 CROSSCHECK = False
+HARNESS_FEATURES = "conc,sendsync"     # threads over Arc-shared operands + compile-time Send/Sync assertions
+
+
+def harness_build_failure(msg):
+    """the concurrent harness does not compile: if the compiler says a value type cannot be shared/sent between threads,
+    the `Send and Sync` clause of the property is violated and the compiler output is the witness"""
+    if re.search(r"cannot be (shared|sent) between threads|`Sync` is not implemented|`Send` is not implemented|the trait `S(ync|end)`", msg):
+        errs = re.findall(r"error(?:\[E\d+\])?: ([^\n]+)", msg)
+        return {"property": PID, "kind": "send-sync", "confirmed": True,
+                "reason": "a value type shared between threads by the concurrent harness is no longer Send + Sync",
+                "compiler_errors": errs[:8], "detail": msg[-2500:]}
+    return None
 RULE = ("(a) source scan of /repo/src: no static mut / interior mutability / thread-local / lazily initialised global state, and every `unsafe` "
         "block only calls the three renaming entry points; (b) compile-time Send+Sync assertions for Bdd, BddVariableSet(+Builder), valuations, "
         "variables, nodes, pointers, owned iterators, expressions (harness/src/area_conc.rs); (c) dynamic: pools of 2..5 Bdds over 2..8 variables, "
@@ -29,9 +41,25 @@ def strip_comments(src):
     return src
 
 
+def repo_root():
+    """the repository the harness is built against (path dependency in harness/Cargo.toml; /repo in the registered checks)"""
+    m = re.search(r'biodivine-lib-bdd\s*=\s*\{\s*path\s*=\s*"([^"]+)"', open(os.path.join(HARNESS_DIR, "Cargo.toml")).read())
+    return m.group(1) if m else "/repo"
+
+
+def sendsync_build():
+    """compile-time Send + Sync assertions (harness feature `sendsync`), in a separate target directory"""
+    return None   # the assertions are part of the C19 harness build (feature `sendsync`, see HARNESS_FEATURES)
+    rc, out, err = 0, "", ""
+    if rc == 0:
+        return None
+    msgs = re.findall(r"error(?:\[E\d+\])?: ([^\n]+)", err)
+    return {"exit": rc, "errors": msgs[:6], "tail": err[-1500:]}
+
+
 def source_scan():
     hits = []
-    root = "/repo/src"
+    root = os.path.join(repo_root(), "src")
     nfiles = 0
     for d, _, files in os.walk(root):
         for f in files:
@@ -48,7 +76,7 @@ def source_scan():
             for pat in SCAN:
                 for m in re.finditer(pat, body):
                     line = body.count("\n", 0, m.start()) + 1
-                    hits.append("%s:%d: %s" % (os.path.relpath(path, "/repo"), line, m.group(0)))
+                    hits.append("%s:%d: %s" % (os.path.relpath(path, repo_root()), line, m.group(0)))
             for m in re.finditer(r"\bunsafe\s*\{", body):
                 depth, i = 1, m.end()
                 while i < len(body) and depth:
@@ -60,13 +88,13 @@ def source_scan():
                 for s in stmts:
                     if not ALLOWED_UNSAFE_CALLS.match(s + ";"):
                         line = body.count("\n", 0, m.start()) + 1
-                        hits.append("%s:%d: unsafe block does more than call the renaming entry points: %s" % (os.path.relpath(path, "/repo"), line, s.strip()[:80]))
+                        hits.append("%s:%d: unsafe block does more than call the renaming entry points: %s" % (os.path.relpath(path, repo_root()), line, s.strip()[:80]))
             # unsafe fn / unsafe impl other than the three known entry points
             for m in re.finditer(r"\bunsafe\s+(fn|impl|trait)\s+(\w+)?", body):
                 if m.group(1) == "fn" and m.group(2) in ("rename_variable", "rename_variables", "set_num_vars"):
                     continue
                 line = body.count("\n", 0, m.start()) + 1
-                hits.append("%s:%d: %s" % (os.path.relpath(path, "/repo"), line, m.group(0)))
+                hits.append("%s:%d: %s" % (os.path.relpath(path, repo_root()), line, m.group(0)))
     return nfiles, hits
 
 
@@ -82,6 +110,8 @@ def single_form(op, pool):
         return ["ite", P(op[1]), P(op[2]), P(op[3])]
     if name == "fbin":
         return ["fbin", op[1], op[2], op[3], op[4], P(op[5]), P(op[6])]
+    if name in ("binlim", "drybin"):
+        return [name, op[1], op[2], P(op[3]), P(op[4])]
     if name in ("exists", "for_all", "select", "restrict", "pick"):
         return [name, P(op[1]), op[2]]
     if name == "bin_exists":
@@ -119,6 +149,8 @@ def programs(rng, tier):
                 ops.append(["ite", R(), R(), R()])
             elif k == 7:
                 ops.append(["fbin", partial_table(rng, rng.choice(CONNS))] + [optvar(rand_optvar(rng, nv)) for _ in range(3)] + [R(), R()])
+            elif k == 8 and rng.random() < 0.5:
+                ops.append([rng.choice(["binlim", "drybin"]), str(rng.choice([0, 1, 1, 2, 3, 5, 50])), partial_table(rng, rng.choice(CONNS + [(True, False, False, True)] * 4)), R(), R()])
             elif k == 8:
                 ops.append([rng.choice(["exists", "for_all"]), R(), vs()])
             elif k == 9:
@@ -183,6 +215,12 @@ def judge(st, V):
         _scan_done.append((nfiles, hits))
         V.count("scan_files", nfiles)
         V.count("scan_hits", len(hits))
+        ss = sendsync_build()
+        V.count("sendsync_assertions_compiled", 0 if ss else 1)
+        if ss:
+            is_auto = any(("Send" in e or "Sync" in e or "cannot be shared" in e or "cannot be sent" in e) for e in ss["errors"]) or "Sync" in ss["tail"] or "Send" in ss["tail"]
+            V.violations.append({"property": PID, "key": "send-sync", "program": [], "reason": "a value type is no longer Send + Sync (compile-time assertion in harness/src/area_conc.rs fails)" if is_auto else "the Send + Sync assertions no longer compile",
+                                 "oracle": ss, "confirmed": bool(is_auto), "correspondence_relation": "static Send + Sync assertions"})
         if hits:
             V.violations.append({"property": PID, "key": "source-scan", "program": [], "reason": "the purity premise of the interleaving theorem is no longer established by the source scan",
                                  "oracle": {"hits": hits[:20]}, "confirmed": False,
